@@ -89,9 +89,11 @@ func vectorStores(ic *IC, body ast.Node, vec types.Object) []vecStore {
 
 // freshSlotExceptions: stores into a fresh frame that deliberately alias something else,
 // keyed "<function>: <range source>" for a call of a ranged-over closure.
-var freshSlotExceptions = map[string]string{
-	"call: rvalues": "result slots of an interpreted call are the caller's destination slots when the call's results are assigned directly (rvalues generators are non-nil only for those): the callee writes its results in place by design",
-}
+// The former exception "call: rvalues" (the callee's result slots were the caller's destination
+// slots, "by design") was a defect frozen as an exception: named results started from the
+// destination's previous value, partial results of a panicking callee leaked, and a function
+// with unnamed results that recovered returned the previous content (D74). The table is empty.
+var freshSlotExceptions = map[string]string{}
 
 // freshFrameSlots decides, for every function (literal) that creates a frame with newFrame,
 // that the slots of the new frame are bound only to fresh storage: reflect.New(t).Elem(),
